@@ -83,7 +83,7 @@ func (o OracleC06) After(x *Exec, op *Op, res *Res) {
 			x.Label("excluded:c06-sole-validator-fully-slashed")
 			continue
 		}
-		if degenerateAsset(pre, denom) || orphanedValidator(pre, denom) {
+		if x.PrecisionCollapsed(denom) || degenerateAsset(pre, denom) || orphanedValidator(pre, denom) {
 			x.Label("c06:ownerless-value-state")
 			continue
 		}
